@@ -129,8 +129,21 @@ class C07(Prop):
 
     def strategy(self, tier):
         step = ops.op_strategy(EDIT_WEIGHTS)
+        from vf import gen_eblif, gen_verilog
+        from vf.props.c05 import NAMES
+
+        ecfg = gen_ir.Cfg(unnamed=False, alphabet=NAMES, max_defs=5, max_children=4, max_width=3,
+                          share=True, top="always", lib_monotone=True, reorder=False,
+                          top_modes=["standalone"], data_values="edif")
+        source = st.one_of(
+            st.just({"kind": "recipe"}), st.just({"kind": "recipe"}), st.just({"kind": "recipe"}),
+            st.fixed_dictionaries({"kind": st.just("edif"), "design": gen_ir.recipes(ecfg),
+                                   "stream": st.lists(st.integers(0, 63), min_size=8, max_size=24)}),
+            st.fixed_dictionaries({"kind": st.just("verilog"), "design": gen_verilog.designs(max_mods=3)}),
+            st.fixed_dictionaries({"kind": st.just("eblif"), "design": gen_eblif.designs(max_stmts=4)}))
         return st.fixed_dictionaries({
             "design": gen_ir.recipes(self.cfg(tier)),
+            "source": source,
             "pre": st.one_of(st.just([]), st.lists(st.fixed_dictionaries({
                 "k": st.sampled_from(["clone_def", "remove_def", "foreign", "clone_inst"]),
                 "i": st.integers(0, 30)}), min_size=1, max_size=3)),
@@ -150,11 +163,19 @@ class C07(Prop):
         U.MOD_NAME_UID = 0
         F.mod_name_uid = 0
         F.unique_number = 0
-        B = gen_ir.build(case["design"])
-        nl = B.netlist
-        pre = model.wf(nl, strict=True)
-        if pre:
-            raise RuntimeError("generator produced ill-formed netlist: %r" % pre[:3])
+        src = case.get("source") or {"kind": "recipe"}
+        B = None
+        if src["kind"] == "recipe":
+            B = gen_ir.build(case["design"])
+            nl = B.netlist
+            pre = model.wf(nl, strict=True)
+            if pre:
+                raise RuntimeError("generator produced ill-formed netlist: %r" % pre[:3])
+        else:
+            nl = self.read_source(res, src)
+            if nl is None:
+                return res
+        res.label("source-" + src["kind"])
         self.keep = self.outsiders(nl, case.get("pre") or [], res)
         kind = case["root"]["kind"]
         res.label("root-" + kind)
@@ -163,6 +184,44 @@ class C07(Prop):
         else:
             self.element_clone(res, nl, B, case)
         return res
+
+    @staticmethod
+    def read_source(res, src):
+        """a netlist produced by one of the three readers from an independent writer's text"""
+        import spydrnet as sdn
+        from vf import gen_eblif, gen_edif, gen_verilog
+        from vf.props.c05 import parse_text as parse_edif
+        from vf.props.c06 import parse_text
+
+        try:
+            if src["kind"] == "edif":
+                Bx = gen_ir.build(src["design"])
+                text, _, _ = gen_edif.render(model.canon(Bx.netlist), src["stream"])
+                nl = parse_edif(text)
+            elif src["kind"] == "verilog":
+                d = dict(src["design"])
+                if not gen_verilog.in_domain(d):
+                    res.label("out-of-domain")
+                    return None
+                nl = parse_text(gen_verilog.text_of(d)[0])
+            else:
+                d = dict(src["design"])
+                if not gen_eblif.in_domain(d):
+                    res.label("out-of-domain")
+                    return None
+                text, exp, _ = gen_eblif.render(d)
+                if exp.get("dup_names"):
+                    res.label("out-of-domain")
+                    return None
+                nl = parse_text(text, ".eblif")
+        except Exception:  # noqa the readers are judged by C05/C06/C18
+            sdn.namespace_manager.default = "DEFAULT"
+            res.label("source-rejected-by-reader")
+            return None
+        if model.wf(nl, strict=True):
+            res.label("reader-output-ill-formed(decided by C05/C06/C18)")
+            return None
+        return nl
 
     @staticmethod
     def outsiders(nl, pre, res):
